@@ -221,8 +221,12 @@ pub fn real_eval(ctx: &Context, model: &Model, e: ExprRef) -> String {
         let mut st = SymbolValueStore::default();
         for (s, _, v) in model {
             match to_baa(v) {
-                baa::Value::BitVec(b) => st.define_bv(*s, &b),
-                baa::Value::Array(a) => st.define_array(*s, a),
+                baa::Value::BitVec(b) => {
+ let _ = st.define_bv(*s, &b);
+ }
+                baa::Value::Array(a) => {
+ let _ = st.define_array(*s, a);
+ }
             }
         }
         let v = patronus::expr::eval_expr(ctx, &st, e);
